@@ -108,7 +108,7 @@ def stats_of(events):
     return traces
 
 
-def v2_property(pid, tier, cfgs, cont, nontrivial, rule, level="model_checking", quick_limit=1200, thorough_limit=None, extra=None, free=False):
+def v2_property(pid, tier, cfgs, cont, nontrivial, rule, level="model_checking", quick_limit=1200, thorough_limit=None, extra=None, free=False, v1kinds=(), v1models=None, simple=False):
     v = Verdict(pid, tier, level)
     rnd = random.Random(seed())
     with Scratch(pid.lower()) as sc:
@@ -139,6 +139,22 @@ def v2_property(pid, tier, cfgs, cont, nontrivial, rule, level="model_checking",
             files.append(os.path.join(fsub, "free_events.ndjson"))
             if free_stats["races"]:
                 v.notes.append("race detector reported %d race(s) in free-running runs (verdict of C20)" % free_stats["races"])
+        v1recs = []
+        if v1models:
+            v1models(v, sc, binary)
+        for kind in v1kinds:
+            for c1 in v1_configs(kind, tier):
+                rec = record_v1(binary, sc, c1, 150 if tier == "quick" else 3000)
+                log("[%s] v1 %s: recorded, %d scheduler events, %.1fs" % (pid, c1["name"], rec["sched_events"], rec["wall"]))
+                v1recs.append((c1, rec))
+                files.append(rec["obs"])
+                if rec["spin"]:
+                    v.notes.append("spin detected in %s (verdict of C16)" % c1["name"])
+        if simple:
+            for c2 in simple_configs(tier):
+                rec = record_simple(binary, sc, c2, 120 if tier == "quick" else 3000)
+                log("[%s] simple %s: recorded, %.1fs" % (pid, c2["name"], rec["wall"]))
+                files.append(rec["obs"])
         log("[%s] monitor ..." % pid)
         viol, events = run_monitor(sc, files, v)
         log("[%s] monitor done: %s" % (pid, {k: len(x) for k, x in viol.items()}))
@@ -153,6 +169,16 @@ def v2_property(pid, tier, cfgs, cont, nontrivial, rule, level="model_checking",
         for t0 in bad_t0[:5]:
             tr = trace_at(events, t0)
             hit = [(c, p) for (a, b, c, p) in offsets if a < t0 <= b]
+            if tr[0].get("cont") == "simple":
+                v.violation("%s: monitor Mon_Prio rejects a trace recorded from the real simplified discipline (config %s, run %d, seed %s): %s" % (
+                    pid, tr[0].get("cfg"), tr[0]["path"], tr[0].get("seed"), summarize(pid, tr)),
+                    dict(kind="prio-simple-run", cfg=tr[0].get("cfg"), run=tr[0]["path"], seed=tr[0].get("seed"), steps=tr[0].get("steps"), observed=tr[:500]))
+                continue
+            if tr[0].get("cont") == "v1":
+                v.violation("%s: monitor Mon_Prio rejects a trace recorded from the real v1 code (config %s, run %d, seed %s): %s" % (
+                    pid, tr[0].get("cfg"), tr[0]["path"], tr[0].get("seed"), summarize(pid, tr)),
+                    dict(kind="prio-v1-run", cfg=tr[0].get("cfg"), run=tr[0]["path"], seed=tr[0].get("seed"), steps=tr[0].get("steps"), observed=tr[:500]))
+                continue
             if not hit:  # a free-running trace
                 v.violation("%s: monitor Mon_Prio rejects a free-running trace of the real code (run %d, %s): %s" % (
                     pid, tr[0]["path"], json.dumps(tr[0].get("cfg")), summarize(pid, tr)),
@@ -170,7 +196,8 @@ def v2_property(pid, tier, cfgs, cont, nontrivial, rule, level="model_checking",
                      replayed_paths=tot["paths"], replayed_steps=tot["steps"], drift=tot["diverged"], drift_samples=drift_samples,
                      other_properties_flagged={k: len(s) for k, s in viol.items() if k != pid},
                      graphs=[dict(cfg=c["name"], **st) for (c, _, _, st, _) in jobs],
-                     free_running={k: free_stats[k] for k in ("runs", "events", "calls")} if free_stats else None)
+                     free_running={k: free_stats[k] for k in ("runs", "events", "calls")} if free_stats else None,
+                     v1_recorded={c1["name"]: r1["sched_events"] for c1, r1 in v1recs})
         for (cfg, sub, paths, st, rp) in jobs[:2]:
             p = path_line(paths, 1)
             v.sample(dict(cfg=cfg["name"], model_path=[("%s(%d)" % (s["a"], s["arg"]) if s["arg"] else s["a"]) for s in p][:60]))
@@ -184,7 +211,7 @@ def v2_property(pid, tier, cfgs, cont, nontrivial, rule, level="model_checking",
 
 
 def summarize(pid, tr):
-    last = [e for e in tr if e["e"] in ("Q", "QA", "A", "Starved", "Deadline", "Leak", "NoErr", "SentAfterBad", "EV")]
+    last = [e for e in tr if e["e"] in ("Q", "QA", "A", "Starved", "Deadline", "Leak", "NoErr", "SentAfterBad", "EV", "StopHang", "CancelHang", "GraceHang", "OutGrew", "HandleAfterStop", "Taken")]
     return "; ".join("%s %s" % (e["e"], e.get("held") or e.get("note") or "") for e in last[-3:]) + " (%d events)" % len(tr)
 
 
@@ -197,8 +224,13 @@ def cfgs_basic(tier):
     return c
 
 
+def models_v1_basic(v, sc, binary):
+    v1_model(v, sc, binary, mk1("v1dynm", [3, 2, 1], {2: 1, 1: 2}, 3, "fair", 3, 1, 1, graceful=True, adds=[[3, 3]], rmvs=[1]))
+    v1_model(v, sc, binary, mk1("v1gracem", [2, 1], {2: 1, 1: 2}, 3, "rate", 2, 1, 2, graceful=True, stop=True))
+
+
 def check_C01(tier):
-    return v2_property("C01", tier, cfgs_basic(tier), "stall", free=True,
+    return v2_property("C01", tier, cfgs_basic(tier), "stall", free=True, v1kinds=("dyn", "grace", "stop"), v1models=models_v1_basic, simple=True,
                        nontrivial=lambda t: t["Q"] is not None and t["Q"] == t["reset"]["H"],
                        rule="transition-cover paths of the TLC state graph of each bounded PrioV2 configuration (real divider table), replayed "
                             "gated into the real v2 scheduler, then the stall continuation (inputs kept full, everything received, nothing "
@@ -207,7 +239,7 @@ def check_C01(tier):
 
 
 def check_C02(tier):
-    return v2_property("C02", tier, cfgs_basic(tier), "drain", free=True,
+    return v2_property("C02", tier, cfgs_basic(tier), "drain", free=True, v1kinds=("dyn", "grace"), v1models=models_v1_basic, simple=True,
                        nontrivial=lambda t: t["OC"] and t["R"] >= 3,
                        rule="same replayed paths, continuation = close all inputs, release and drain everything; verdict by Mon_Prio: per input "
                             "consecutive ordinals, tag = registered priority, nothing missing when Output() closes, nothing received that was "
@@ -215,7 +247,7 @@ def check_C02(tier):
 
 
 def check_C07(tier):
-    return v2_property("C07", tier, cfgs_basic(tier), "drain", free=True,
+    return v2_property("C07", tier, cfgs_basic(tier), "drain", free=True, v1kinds=("grace", "dyn"), v1models=models_v1_grace, simple=True,
                        nontrivial=lambda t: t["OC"] and t["R"] >= 1,
                        rule="replayed paths end in arbitrary model states (inputs open/closed, items held/unreleased); continuation closes, "
                             "releases and drains; verdict by Mon_Prio: Output()/Err() close only after every input is closed and emptied and "
@@ -263,6 +295,10 @@ def check_C06(tier):
                        extra=liveness_C06, quick_limit=900)
 
 
+def models_v1_grace(v, sc, binary):
+    v1_model(v, sc, binary, mk1("v1gracelive", [2, 1], {2: 1, 1: 2}, 2, "rate", 2, 1, 1, graceful=True), spec="GraceSpec", properties=["C07_Live"])
+
+
 def check_C05(tier):
     cfgs = [mk("p2sat", [2, 1], 3, "rate", 2, 0, sat=True), mk("p3fsat", [3, 2, 1], 4, "fair", 1, 0, sat=True), mk("p3sat", [3, 2, 1], 6, "rate", 1, 0, sat=True)]
     if tier == "thorough":
@@ -282,7 +318,7 @@ def check_C15(tier):
     if tier == "thorough":
         cfgs += [mk("p3ffault", [3, 2, 1], 4, "fair", 1, 1, faults=1), mk("p3rfault", [3, 2, 1], 6, "rate", 1, 1, faults=1),
                  mk("p2revfault", [2, 1], 3, "rev", 2, 2, faults=1)]
-    return v2_property("C15", tier, cfgs, "drain", level="fault_enumeration",
+    return v2_property("C15", tier, cfgs, "drain", level="fault_enumeration", v1kinds=("fault",),
                        nontrivial=lambda t: t["reset"].get("fault"),
                        rule="fault model: TLC corrupts the result of any ONE divider call (over- or under-allocation) at any reachable state of the "
                             "bounded PrioV2 configurations; every such behaviour is in the transition cover and is replayed with the fault injected at "
@@ -450,7 +486,36 @@ def record_v1(binary, sc, cfg, runs, timeout=900):
     return dict(sub=sub, all=allf, obs=obsf, sched_events=n_s, races=races_in(out), spin=spin, wall=wall)
 
 
-def v1_property(pid, tier, kinds, nontrivial, rule, level="model_checking", models=None, runs=(250, 4000)):
+def mks(name, ver, prios, H, div, cap, items, **kw):
+    c = dict(name=name, ver=ver, prios=prios, nc=len(prios), initchan={str(p): i + 1 for i, p in enumerate(prios)}, H=H, div=div,
+             incap={str(i + 1): cap for i in range(len(prios))}, items={str(i + 1): items for i in range(len(prios))},
+             stop=False, cancel=False, graceful=False)
+    c.update(kw)
+    return c
+
+
+def simple_configs(tier):
+    return [mks("simple2fair", 2, [3, 2, 1], 4, "fair", 2, 5), mks("simple2rate", 2, [2, 1], 3, "rate", 1, 6),
+            mks("simple1", 1, [2, 1], 3, "rate", 2, 6, stop=True, cancel=True, graceful=True),
+            mks("simple1fair", 1, [3, 2, 1], 4, "fair", 1, 4, stop=True, graceful=True)]
+
+
+def record_simple(binary, sc, cfg, runs, timeout=900):
+    sub = os.path.join(sc, "s-" + cfg["name"])
+    os.makedirs(sub, exist_ok=True)
+    cfgp = os.path.join(sub, "cfg.json")
+    json.dump(cfg, open(cfgp, "w"))
+    rc, out, wall = run_test(binary, "TestRecordSimple$", env=dict(CFG=cfgp, OUT_DIR=sub, SIMPLE_RUNS=runs), timeout=timeout)
+    f = os.path.join(sub, "simple_events.ndjson")
+    spin = spin_verdict(sub) if rc == 3 else None
+    if "RECORDED simple" not in out and not spin:
+        if not os.path.exists(f) or os.path.getsize(f) == 0:
+            raise Inconclusive("simple recorder died\n" + out[-3000:])
+        log("simple recorder for %s ended early: %s" % (cfg["name"], out[-500:].replace("\n", " | ")))
+    return dict(obs=f, races=races_in(out), spin=spin, wall=wall)
+
+
+def v1_property(pid, tier, kinds, nontrivial, rule, level="model_checking", models=None, runs=(250, 4000), simple=False, extra=None):
     v = Verdict(pid, tier, level)
     with Scratch(pid.lower() + "v1") as sc:
         binary = os.path.join(sc, "prioh.test")
@@ -468,6 +533,15 @@ def v1_property(pid, tier, kinds, nontrivial, rule, level="model_checking", mode
                     v.violation("C16: after Stop() the scheduling goroutine spins without ever blocking and Stop() never returns (config %s, run %s, seed %s)"
                                 % (cfg["name"], rec["spin"]["marker"].get("run"), rec["spin"]["marker"].get("seed")),
                                 dict(kind="prio-v1-spin", cfg=cfg, **rec["spin"])) if pid == "C16" else v.notes.append("spin detected in %s (verdict of C16)" % cfg["name"])
+        if simple:
+            for cfg in simple_configs(tier):
+                if cfg["ver"] != 1:
+                    continue
+                rec = record_simple(binary, sc, cfg, 150 if tier == "quick" else 3000)
+                log("[%s] %s: recorded, %.1fs" % (pid, cfg["name"], rec["wall"]))
+                files.append(rec["obs"])
+        if extra:
+            extra(v, sc)
         viol, events = run_monitor(sc, files, v)
         log("[%s] monitor: %s" % (pid, {k: len(x) for k, x in viol.items()}))
         traces = stats_of(events)
@@ -506,7 +580,7 @@ def models_C16(v, sc, binary):
 def check_C16(tier):
     def extra_join(v):
         pass
-    return v1_property("C16", tier, ["stop"], level="fault_enumeration",
+    return v1_property("C16", tier, ["stop"], level="fault_enumeration", simple=True,
                        nontrivial=lambda t: has(t, "Stop", "Cancel") and t["R"] >= 1,
                        rule="TLC: (stop or cancel requested) ~> terminated on the PrioV1 specification under scheduler fairness only (no environment help), with a "
                             "regression twin (the loop of the pinned tree must exhibit the F3 lasso); real code: seeded gated schedules inject Stop()/cancel at a "
